@@ -774,6 +774,8 @@ func c14b(c *Ctx) {
 	if fn == nil {
 		return
 	}
+	c.checkShape(fn, "movement/output-shape", gSeq(gMark(), gName(), gStar(gSeq(gMark(), gLit("\t%s\n"))), gOpt(gLit("\tstep_end\n"))),
+		"a movement is its label, its steps, and at most one appended terminator, which is last")
 	var stepW, termW *writeSite
 	ws := c.sitesOf(fn)
 	for i := range ws {
@@ -816,6 +818,8 @@ func c14c(c *Ctx) {
 	if fn == nil {
 		return
 	}
+	c.checkShape(fn, "mart/output-shape", gSeq(gLit("\t.align 2\n"), gMark(), gName(), gStar(gSeq(gMark(), gLit("\t.2byte %s\n"))), gLit("\t.2byte ITEM_NONE\n")),
+		"a mart is '.align 2', its label, its items, and exactly one ITEM_NONE, which is last")
 	ws := c.sitesOf(fn)
 	if len(ws) == 0 {
 		c.Bad("mart/writes", c.W.FuncPos(fn), "no writes")
@@ -968,6 +972,28 @@ func c12e(c *Ctx) {
 			if !hasLit(c.edgeMust(fn, p, head), lit) {
 				ok = false
 			}
+		}
+		// a list parser that is told which token closes its list looks for an item only while
+		// the current token is not that token (an empty ':' case has no item to look for)
+		for i, p := range fn.Params {
+			if !typeIs(p.Type(), "token", "Type") {
+				continue
+			}
+			re := regexpMust(fmt.Sprintf(`^-\(\$0\.curToken(![A-Za-z0-9@_]+)?\.Type == \$%d\)$`, i))
+			okEnd := true
+			for b := range loopBody(head) {
+				if b == head {
+					continue
+				}
+				has := false
+				for _, l := range c.mustLits(fn, b) {
+					if re.MatchString(l) {
+						has = true
+					}
+				}
+				okEnd = okEnd && has
+			}
+			c.Check(okEnd, fn.Name()+"/item-only-before-closing-token", c.W.Pos(firstPos(head)), "every iteration starts with the current token tested against the list's closing token", "an item is looked for although the current token may be the list's closing token: an empty case body (which may not even be the selected one) would be a syntax error or swallow the closing token")
 		}
 		c.Check(ok && n > 0, fn.Name()+"/repeats-only-if-multiple", c.W.Pos(firstPos(head)), "the loop goes round again only when multiple items are allowed", "the item loop can repeat although only a single item is allowed (colon-form case): the following case label would be parsed as content of this case")
 	}
